@@ -182,4 +182,21 @@ example : ∃ s, runFrom ⟨true, true, true, true, true, true⟩ (init (.reatta
   refine ⟨(runFrom ⟨true, true, true, true, true, true⟩ (init (.reattach true) true)
     [.start true, .client true true, .killA true true, .procDies 0]).get (by decide), by simp, by decide, by decide⟩
 
+/-! ### the plugin outlives host connections -/
+
+/-- **A running plugin stays reachable until somebody asks it to quit**: after any history of host connections made
+and dropped (a crashed host, an earlier reattached client that went away), it is still serving — exactly when no
+`Control.Quit` was sent. -/
+theorem server_up_until_quit (S : ServerParams) (hS : S.Good) (h : List ConnEv) :
+    serverUp S h = !h.contains .quit := by
+  have hq : S.doneOnlyOnQuit = true := hS
+  induction h with
+  | nil => rfl
+  | cons e r ih => cases e <;> simp [serverUp, hq, ih]
+
+/-- ending the server whenever a connection's control stream ends: one dropped connection and nobody can reattach -/
+theorem server_dies_on_drop_witness : serverUp ⟨false⟩ [.connect, .drop, .connect] = false := by decide
+
+example : serverUp ⟨true⟩ [.connect, .drop, .connect, .drop] = true := by decide
+
 end GoPlugin.Props.C15
